@@ -635,6 +635,7 @@ Theorem mlp_model_gradient (n0 : network NR) (cs : curves) d (xl tgl : list R) h
   chainedS (at_t cs h0) d -> length xl = d -> length tgl = lastD (at_t cs h0) d -> (0 < length tgl)%nat ->
   curves_ok cs h0 -> smoothL (at_t cs h0) xl ->
   exists gps : list vec,
+    length gps = length cs /\
     (* what the model's forward / objective / backward return at the parameters theta(h0) ... *)
     sample_grad (net_at n0 cs h0) (t_single NR xl, t_single NR tgl)
       = Ok ((ws_of (at_t cs h0) gps, bs_of (at_t cs h0) gps),
@@ -679,7 +680,10 @@ Proof.
     rewrite Hb. reflexivity. }
   pose proof (SG h0) as SG0. cbv zeta in SG0.
   destruct (gradsL (at_t cs h0) xl (lof m (mse_gradR m (vof tgl) (vof (predL (at_t cs h0) xl))))) as [[gin gps] gins] eqn:Eg.
-  exists gps. split; [exact SG0|].
+  exists gps. split.
+  { pose proof (gradsL_lengths (at_t cs h0) xl (lof m (mse_gradR m (vof tgl) (vof (predL (at_t cs h0) xl))))) as [Hl1 _].
+    rewrite Eg in Hl1. cbn [fst snd] in Hl1. rewrite Hl1. unfold at_t. apply map_length. }
+  split; [exact SG0|].
   assert (LV : forall t, loss_of (sample_grad (net_at n0 cs t) (t_single NR xl, t_single NR tgl))
                          = mseR m (vof tgl) (vof (predL (at_t cs t) xl))).
   { intros t. pose proof (SG t) as SGt. cbv zeta in SGt.
@@ -697,4 +701,173 @@ Proof.
     + apply (@mse_contract m (vof tgl) (fun t => vof (Y t)) Y' h0 Hpos HYd).
     + unfold dotp. apply bsum_ext. intros i Hi. rewrite vof_lof by exact Hi. reflexivity.
   - unfold dotp. rewrite (@bsum_ext d _ (fun _ => 0)) by (intros; ring). rewrite bsum_zero. ring.
+Qed.
+
+(* ---- the hypotheses are satisfiable: a 2-2-1 network (sigmoid with bias, then linear without bias),
+        every parameter moving along an arbitrary line ---- *)
+Example mlp_model_gradient_applies (th1 th2 d1 d2 : vec) (x1 x2 y : R) :
+  let s1 := {| ls_o := 2; ls_n := 2; ls_act := Sigmoid; ls_bias := true |} in
+  let s2 := {| ls_o := 1; ls_n := 2; ls_act := Linear; ls_bias := false |} in
+  let cs : curves := (s1, (fun t i => th1 i + t * d1 i), d1) :: (s2, (fun t i => th2 i + t * d2 i), d2) :: nil in
+  exists gps : list vec,
+    is_derive (fun t => loss_of (sample_grad (net_at (network_new NR (SSingle 2)) cs t)
+                                              (t_single NR (x1 :: x2 :: nil), t_single NR (y :: nil)))) 0
+              (pairing cs gps).
+Proof.
+  intros s1 s2 cs.
+  destruct (@mlp_model_gradient (network_new NR (SSingle 2)) cs 2 (x1 :: x2 :: nil) (y :: nil) 0
+              eq_refl eq_refl eq_refl) as (gps & _ & _ & _ & D).
+  - cbn. repeat split; try lia; discriminate.
+  - reflexivity.
+  - reflexivity.
+  - cbn. lia.
+  - cbn [curves_ok cs]. split; [|split; [|exact I]]; intros k Hk; cbv beta; auto_derive; try exact I; ring.
+  - cbn. repeat split; intros; exact I.
+  - exists gps. exact D.
+Qed.
+
+(* ================= one parameter at a time ================= *)
+(* coordinate j of layer k0 moves with unit speed through its value, everything else is constant:
+   the derivative of the model's loss is then entry j of the gradient the model returns for layer k0 *)
+Definition line (th : vec) (j : nat) : R -> vec := fun t i => if (i =? j)%nat then th i + t else th i.
+Definition unit_vec (j : nat) : vec := fun i => if (i =? j)%nat then 1 else 0.
+Definition frozen (p : lspec * vec) : lspec * (R -> vec) * vec := (fst p, fun _ => snd p, fun _ => 0).
+
+Fixpoint one_param_curves (specs : list (lspec * vec)) (k0 j : nat) : curves :=
+  match specs with
+  | [] => []
+  | (s, th) :: rest =>
+      match k0 with
+      | O => (s, line th j, unit_vec j) :: map frozen rest
+      | S k' => frozen (s, th) :: one_param_curves rest k' j
+      end
+  end.
+
+(* two parameter lists that agree point-wise describe the same computation *)
+Fixpoint same_params (a b : list (lspec * vec)) : Prop :=
+  match a, b with
+  | [], [] => True
+  | (s, th) :: a', (s', th') :: b' => s = s' /\ (forall i, th i = th' i) /\ same_params a' b'
+  | _, _ => False
+  end.
+
+Lemma eff_ext s th th' : (forall i, th i = th' i) -> forall i, eff s th i = eff s th' i.
+Proof. intros H i. unfold eff. rewrite H. reflexivity. Qed.
+
+Lemma preD_ext o n th th' x i : (forall k, th k = th' k) -> preD o n th x i = preD o n th' x i.
+Proof.
+  intros H. unfold ChainDense.pre, affR, Wof, Bof. rewrite H. f_equal. apply bsum_ext. intros j _. rewrite H. reflexivity.
+Qed.
+
+Lemma outL_ext s (th th' : vec) xl : (forall i, th i = th' i) -> outL (s, th) xl = outL (s, th') xl.
+Proof.
+  intros H. unfold outL. cbn [fst snd]. apply lof_ext. intros i Hi. cbn [stage_of dense_stage sfwd]. f_equal.
+  apply preD_ext. apply eff_ext. exact H.
+Qed.
+
+Lemma chainedS_same a : forall b d, same_params a b -> chainedS a d -> chainedS b d.
+Proof.
+  induction a as [|[s th] a IH]; intros [|[s' th'] b] d Hs Hc; cbn [same_params] in Hs; try contradiction; [exact I|].
+  destruct Hs as (<- & _ & Hs). cbn [chainedS] in *. destruct Hc as (H1 & H2 & H3 & H4 & H5).
+  repeat split; try assumption. apply (IH b); assumption.
+Qed.
+Lemma lastD_same a : forall b d, same_params a b -> lastD a d = lastD b d.
+Proof.
+  induction a as [|[s th] a IH]; intros [|[s' th'] b] d Hs; cbn [same_params] in Hs; try contradiction; [reflexivity|].
+  destruct Hs as (<- & _ & Hs). cbn [lastD]. apply IH. exact Hs.
+Qed.
+Lemma smoothL_same a : forall b xl, same_params a b -> smoothL a xl -> smoothL b xl.
+Proof.
+  induction a as [|[s th] a IH]; intros [|[s' th'] b] xl Hs Hm; cbn [same_params] in Hs; try contradiction; [exact I|].
+  destruct Hs as (<- & Hth & Hs). cbn [smoothL] in *. destruct Hm as [H1 H2]. split.
+  - intros i Hi. rewrite <- (@preD_ext (ls_o s) (ls_n s) (eff s th) (eff s th') (vof xl) i (@eff_ext s th th' Hth)). apply H1. exact Hi.
+  - rewrite <- (@outL_ext s th th' xl Hth). apply (IH b); assumption.
+Qed.
+
+Lemma same_params_frozen rest t : same_params rest (at_t (map frozen rest) t).
+Proof.
+  induction rest as [|[s th] rest IH]; [exact I|]. cbn [map frozen at_t fst snd same_params].
+  split; [reflexivity|]. split; [reflexivity|]. exact IH.
+Qed.
+
+Lemma same_params_one specs : forall k0 j, same_params specs (at_t (one_param_curves specs k0 j) 0).
+Proof.
+  induction specs as [|[s th] rest IH]; intros k0 j; [exact I|]. destruct k0 as [|k'].
+  - cbn [one_param_curves at_t map fst snd same_params]. split; [reflexivity|]. split.
+    + intros i. unfold line. destruct (i =? j)%nat; ring.
+    + apply same_params_frozen.
+  - cbn [one_param_curves frozen at_t map fst snd same_params]. split; [reflexivity|]. split; [reflexivity|]. apply IH.
+Qed.
+
+Lemma curves_ok_frozen rest h0 : curves_ok (map frozen rest) h0.
+Proof.
+  induction rest as [|[s th] rest IH]; [exact I|]. cbn [map frozen curves_ok fst snd]. split; [|exact IH].
+  intros i Hi. apply @is_derive_const.
+Qed.
+
+Lemma curves_ok_one specs : forall k0 j, curves_ok (one_param_curves specs k0 j) 0.
+Proof.
+  induction specs as [|[s th] rest IH]; intros k0 j; [exact I|]. destruct k0 as [|k'].
+  - cbn [one_param_curves curves_ok]. split; [|apply curves_ok_frozen].
+    intros i Hi. unfold line, unit_vec. destruct (i =? j)%nat; auto_derive; try exact I; ring.
+  - cbn [one_param_curves frozen curves_ok fst snd]. split; [|apply IH]. intros i Hi. apply @is_derive_const.
+Qed.
+
+Lemma pairing_frozen rest gps : pairing (map frozen rest) gps = 0.
+Proof.
+  revert gps; induction rest as [|[s th] rest IH]; intros [|gp gps]; cbn [map frozen pairing fst snd]; try reflexivity.
+  rewrite IH. unfold dotp.
+  rewrite (@bsum_ext _ _ (fun _ => 0)); [rewrite bsum_zero; ring|].
+  intros i _. unfold eff. destruct (ls_bias s); [ring|]. destruct (i <? ls_o s * ls_n s)%nat; ring.
+Qed.
+
+Lemma pairing_one specs : forall k0 j gps s th,
+  nth_error specs k0 = Some (s, th) ->
+  (j < ls_o s * ls_n s + (if ls_bias s then ls_o s else 0))%nat ->
+  length gps = length specs ->
+  pairing (one_param_curves specs k0 j) gps = nth k0 gps (fun _ => 0) j.
+Proof.
+  induction specs as [|[s0 th0] rest IH]; intros k0 j gps s th Hn Hj Hl; [destruct k0; discriminate|].
+  destruct gps as [|gp gps]; [discriminate|]. destruct k0 as [|k'].
+  - cbn [nth_error] in Hn. injection Hn as -> ->. cbn [one_param_curves pairing nth]. rewrite pairing_frozen, Rplus_0_r.
+    unfold dotp.
+    rewrite (@bsum_ext _ _ (fun i => if (i =? j)%nat then gp i else 0)).
+    + rewrite bsum_pick. replace (j <? ls_o s * ls_n s + ls_o s)%nat with true; [reflexivity|].
+      symmetry. apply Nat.ltb_lt. destruct (ls_bias s); lia.
+    + intros i Hi. unfold eff, unit_vec. destruct (Nat.eqb_spec i j) as [->|Hne].
+      * destruct (ls_bias s); [ring|]. replace (j <? ls_o s * ls_n s)%nat with true by (symmetry; apply Nat.ltb_lt; lia). ring.
+      * destruct (ls_bias s); [ring|]. destruct (i <? ls_o s * ls_n s)%nat; ring.
+  - cbn [nth_error] in Hn. cbn [one_param_curves frozen pairing nth fst snd].
+    rewrite (@IH k' j gps s th Hn Hj ltac:(cbn [length] in Hl; lia)).
+    unfold dotp. rewrite (@bsum_ext _ _ (fun _ => 0)); [rewrite bsum_zero; ring|].
+    intros i _. unfold eff. destruct (ls_bias s0); [ring|]. destruct (i <? ls_o s0 * ls_n s0)%nat; ring.
+Qed.
+
+Theorem mlp_model_partial_derivative (n0 : network NR) (specs : list (lspec * vec)) d (xl tgl : list R)
+        (k0 j : nat) (s : lspec) (th : vec) :
+  n_connect n0 = [] -> n_loopbacks n0 = [] -> n_objective n0 = (MSE, None) ->
+  chainedS specs d -> length xl = d -> length tgl = lastD specs d -> (0 < length tgl)%nat ->
+  smoothL specs xl ->
+  nth_error specs k0 = Some (s, th) ->
+  (j < ls_o s * ls_n s + (if ls_bias s then ls_o s else 0))%nat ->
+  let cs := one_param_curves specs k0 j in
+  exists gps : list vec,
+    sample_grad (net_at n0 cs 0) (t_single NR xl, t_single NR tgl)
+      = Ok ((ws_of (at_t cs 0) gps, bs_of (at_t cs 0) gps),
+            mseR (length tgl) (vof tgl) (vof (predL (at_t cs 0) xl))) /\
+    is_derive (fun t => loss_of (sample_grad (net_at n0 cs t) (t_single NR xl, t_single NR tgl))) 0
+              (nth k0 gps (fun _ => 0) j).
+Proof.
+  intros Hc Hl Hobj Hch Hxl Htl Hpos Hsm Hn Hj cs.
+  pose proof (same_params_one specs k0 j) as Hsame. fold cs in Hsame.
+  destruct (@mlp_model_gradient n0 cs d xl tgl 0 Hc Hl Hobj
+              (@chainedS_same specs (at_t cs 0) d Hsame Hch) Hxl
+              ltac:(rewrite <- (@lastD_same specs (at_t cs 0) d Hsame); exact Htl) Hpos
+              (curves_ok_one specs k0 j) (@smoothL_same specs (at_t cs 0) xl Hsame Hsm)) as (gps & Hgl & SG & _ & D).
+  exists gps. split; [exact SG|].
+  assert (Hlen : length gps = length specs).
+  { rewrite Hgl. unfold cs. clear. revert k0. induction specs as [|[s0 th0] rest IH]; intros [|k']; cbn [one_param_curves length map frozen]; try reflexivity.
+    - rewrite map_length. reflexivity.
+    - rewrite IH. reflexivity. }
+  rewrite <- (@pairing_one specs k0 j gps s th Hn Hj Hlen). exact D.
 Qed.
